@@ -135,7 +135,8 @@ def run(ck):
     prev, cur = [pp.name for pp in fn.call_params()]
     ref_dist, q_dist, fwd, rev, ref_len, q_len = expected_distances(prev, cur)
     found = False
-    for pa in explore(ck, fn):
+    own = lambda callee: callee.cls is fn.cls and callee is not fn
+    for pa in explore(ck, fn, follow=own):
         for e in pa.events:
             if e.kind != "assign":
                 continue
